@@ -1,14 +1,16 @@
 (** C01 -- two concrete data objects (one per flavour) that meet every hypothesis of the
     whole-file theorems: 2 rock types (nad 0 and 2), 3 blocks, 2 connections, PARAM with
     two time-step lines and five default initial conditions, MOMOP, START, RPCAP,
-    LINEQ / SOLVR, MULTI, TIMES (9 times), SELEC (two lines of reals), DIFFU, a table
-    generator with 5 times and enthalpies, FOFT, COFT, GOFT, INDOM, INCON; sections in a
-    non-standard order.  Generated once from the harness's object
+    LINEQ / SOLVR, MULTI, TIMES (9 times), SELEC (two lines of reals), DIFFU, MESHMAKER (RZ2D
+    with 9 radii, EQUID, LOGAR, LAYER; XYZ with a 9-entry increment list; MINC), a table
+    generator with 5 times and enthalpies, SHORT (frequency, blocks, connections,
+    generators; right after PARAM, so its header line is the look-ahead line), FOFT, COFT,
+    GOFT, INDOM, INCON: all section kinds of the flavour, in a non-standard order.  Generated once from the harness's object
     builder (tools/props/c01_gen.py), checked here by computation. *)
 From Coq Require Import Ascii String List Bool Arith ZArith NArith.
 From PTBase Require Import Exn PyStr PyNum PyVal Fmt FixedFormat.
 From Gen Require Import GenTables GenSections.
-From P Require Import Comb Obj Fields Sections SectionsB Rec SecRocks SecMesh SecGener SecMisc SecParam SecHist SecSel T2DataIO Whole.
+From P Require Import Comb Obj Fields Sections SectionsB Rec SecRocks SecMesh SecGener SecMisc SecParam SecHist SecSel SecShort SecMeshm T2DataIO Whole.
 Import ListNotations.
 Open Scope string_scope.
 
@@ -31,19 +33,19 @@ Definition example_autough2 : t2d :=
   (Some ([("num_times_specified", (XInt (9))); ("num_times", (XInt (9))); ("time_increment", (XReal false (3) (-1)))], [(XReal false (1) (0)); (XReal false (1) (1)); (XReal false (3) (0)); (XReal false (1) (2)); (XReal false (5) (0)); (XReal false (3) (1)); (XReal false (7) (0)); (XReal false (1) (3)); (XReal false (19) (-1))]))
   (Some ([(XInt (2)); (XInt (0)); (XInt (0)); (XInt (1)); XNone; (XInt (5))], [(XReal false (1) (0)); (XReal false (5) (-1)); XNone; (XReal false (1) (2)); (XReal false (5) (0)); (XReal false (3) (1)); (XReal false (7) (0)); (XReal false (1) (3)); (XReal false (9) (0)); (XReal false (21) (-1))]))
   [[(XReal false (5902958103587057) (-69)); (XReal false (4722366482869645) (-71))]; [(XReal false (8854437155380585) (-69)); (XReal false (0) (0))]]
-  []
+  [(MMrz2d [((s2l "radii"), [], [(XReal false (0) (0)); (XReal false (1) (-1)); (XReal false (1) (0)); (XReal false (1) (1)); (XReal false (1) (2)); (XReal false (1) (3)); (XReal false (1) (4)); (XReal false (1) (5)); (XReal false (1) (6))]); ((s2l "equid"), [("nequ", (XInt (10))); ("dr", (XReal false (5) (-1)))], []); ((s2l "logar"), [("nlog", (XInt (20))); ("rlog", (XReal false (125) (3)))], []); ((s2l "layer"), [], [(XReal false (5) (1)); (XReal false (5) (2)); (XReal false (15) (1))])]); (MMxyz (XReal false (15) (0)) [([("ntype", (XStr (s2l "NX"))); ("no", (XInt (3))); ("del", (XReal false (25) (2)))], []); ([("ntype", (XStr (s2l "NY"))); ("no", (XInt (9))); ("del", (XReal false (0) (0)))], [(XReal false (1) (0)); (XReal false (1) (1)); (XReal false (3) (0)); (XReal false (1) (2)); (XReal false (5) (0)); (XReal false (3) (1)); (XReal false (7) (0)); (XReal false (1) (3)); (XReal false (9) (0))])]); (MMminc [("type", (XStr (s2l "THRED"))); ("dual", (XStr (s2l "MMALL"))); ("num_continua", (XInt (3))); ("where", (XStr (s2l "OUT ")))] [(XReal false (5) (1)); (XReal false (5) (2)); (XReal false (15) (1))] [(XReal false (3602879701896397) (-56)); (XReal false (1) (-2)); (XReal false (3152519739159347) (-52))])]
   [(mk_gen (s2l "AB105") (s2l "wel 1") XNone XNone XNone (XInt (5)) (s2l "MASS") (s2l "E") XNone XNone XNone XNone [(XReal false (0) (0)); (XReal false (125) (3)); (XReal false (125) (4)); (XReal false (375) (3)); (XReal false (125) (5))] [(XReal true (1) (0)); (XReal true (5) (-1)); (XReal true (3) (0)); (XReal true (1) (1)); (XReal false (0) (0))] [(XReal false (15625) (6)); (XReal false (34375) (5)); (XReal false (9375) (7)); (XReal false (40625) (5)); (XReal false (21875) (6))]); (mk_gen (s2l "AB 12") (s2l "inj 2") (XInt (0)) XNone XNone (XInt (1)) (s2l "HEAT") (s2l "") (XReal false (375) (2)) XNone XNone XNone [] [] [])]
-  None
+  (Some (mk_short (Some (XInt (5))) (Some [(s2l "AB105"); (s2l "wel 1")]) (Some [((s2l "AB 12"), (s2l "wel 1"))]) (Some [((s2l "AB105"), (s2l "wel 1"))])))
   [(s2l "AB 12"); (s2l "wel 1")]
   [((s2l "AB105"), (s2l "AB 12"))]
   [(s2l "AB105")]
   [((s2l "AB 12"), (mk_inc (XReal false (1) (-2)) [(XReal false (3125) (5)); (XReal false (15) (0))] None)); ((s2l "AB105"), (mk_inc XNone [(XReal false (3125) (6)); (XReal false (125) (1)); (XReal false (3602879701896397) (-55))] (Some ((XInt (2)), (XInt (1))))))]
   [((s2l "rock2"), [(XReal false (3125) (5)); (XReal false (5) (2)); (XReal false (1) (-2))]); ((s2l "rock1"), [(XReal false (3125) (6))])]
-  [(s2l "SIMUL"); (s2l "ROCKS"); (s2l "MULTI"); (s2l "START"); (s2l "DIFFU"); (s2l "ELEME"); (s2l "CONNE"); (s2l "PARAM"); (s2l "RPCAP"); (s2l "LINEQ"); (s2l "MOMOP"); (s2l "TIMES"); (s2l "SELEC"); (s2l "GENER"); (s2l "COFT"); (s2l "FOFT"); (s2l "GOFT"); (s2l "INDOM"); (s2l "INCON")]
+  [(s2l "SIMUL"); (s2l "ROCKS"); (s2l "MULTI"); (s2l "START"); (s2l "DIFFU"); (s2l "ELEME"); (s2l "CONNE"); (s2l "MESHM"); (s2l "RPCAP"); (s2l "LINEQ"); (s2l "MOMOP"); (s2l "TIMES"); (s2l "SELEC"); (s2l "GENER"); (s2l "PARAM"); (s2l "SHORT"); (s2l "COFT"); (s2l "FOFT"); (s2l "GOFT"); (s2l "INDOM"); (s2l "INCON")]
   (s2l "ENDCY")
   []
   true).
-Definition example_autough2_order : list string := ["SIMUL"; "ROCKS"; "MULTI"; "START"; "DIFFU"; "ELEME"; "CONNE"; "PARAM"; "RPCAP"; "LINEQ"; "MOMOP"; "TIMES"; "SELEC"; "GENER"; "COFT"; "FOFT"; "GOFT"; "INDOM"; "INCON"].
+Definition example_autough2_order : list string := ["SIMUL"; "ROCKS"; "MULTI"; "START"; "DIFFU"; "ELEME"; "CONNE"; "MESHM"; "RPCAP"; "LINEQ"; "MOMOP"; "TIMES"; "SELEC"; "GENER"; "PARAM"; "SHORT"; "COFT"; "FOFT"; "GOFT"; "INDOM"; "INCON"].
 Definition example_tough2 : t2d :=
 (mk_t2d
   (s2l "example problem")
@@ -63,19 +65,19 @@ Definition example_tough2 : t2d :=
   (Some ([("num_times_specified", (XInt (9))); ("num_times", (XInt (9))); ("time_increment", (XReal false (3) (-1)))], [(XReal false (1) (0)); (XReal false (1) (1)); (XReal false (3) (0)); (XReal false (1) (2)); (XReal false (5) (0)); (XReal false (3) (1)); (XReal false (7) (0)); (XReal false (1) (3)); (XReal false (19) (-1))]))
   (Some ([(XInt (2)); (XInt (0)); (XInt (0)); (XInt (1)); XNone; (XInt (5))], [(XReal false (1) (0)); (XReal false (5) (-1)); XNone; (XReal false (1) (2)); (XReal false (5) (0)); (XReal false (3) (1)); (XReal false (7) (0)); (XReal false (1) (3)); (XReal false (9) (0)); (XReal false (21) (-1))]))
   [[(XReal false (5902958103587057) (-69)); (XReal false (4722366482869645) (-71))]; [(XReal false (8854437155380585) (-69)); (XReal false (0) (0))]]
-  []
+  [(MMrz2d [((s2l "radii"), [], [(XReal false (0) (0)); (XReal false (1) (-1)); (XReal false (1) (0)); (XReal false (1) (1)); (XReal false (1) (2)); (XReal false (1) (3)); (XReal false (1) (4)); (XReal false (1) (5)); (XReal false (1) (6))]); ((s2l "equid"), [("nequ", (XInt (10))); ("dr", (XReal false (5) (-1)))], []); ((s2l "logar"), [("nlog", (XInt (20))); ("rlog", (XReal false (125) (3)))], []); ((s2l "layer"), [], [(XReal false (5) (1)); (XReal false (5) (2)); (XReal false (15) (1))])]); (MMxyz (XReal false (15) (0)) [([("ntype", (XStr (s2l "NX"))); ("no", (XInt (3))); ("del", (XReal false (25) (2)))], []); ([("ntype", (XStr (s2l "NY"))); ("no", (XInt (9))); ("del", (XReal false (0) (0)))], [(XReal false (1) (0)); (XReal false (1) (1)); (XReal false (3) (0)); (XReal false (1) (2)); (XReal false (5) (0)); (XReal false (3) (1)); (XReal false (7) (0)); (XReal false (1) (3)); (XReal false (9) (0))])]); (MMminc [("type", (XStr (s2l "THRED"))); ("dual", (XStr (s2l "MMALL"))); ("num_continua", (XInt (3))); ("where", (XStr (s2l "OUT ")))] [(XReal false (5) (1)); (XReal false (5) (2)); (XReal false (15) (1))] [(XReal false (3602879701896397) (-56)); (XReal false (1) (-2)); (XReal false (3152519739159347) (-52))])]
   [(mk_gen (s2l "AB105") (s2l "wel 1") XNone XNone XNone (XInt (5)) (s2l "MASS") (s2l "E") XNone XNone XNone XNone [(XReal false (0) (0)); (XReal false (125) (3)); (XReal false (125) (4)); (XReal false (375) (3)); (XReal false (125) (5))] [(XReal true (1) (0)); (XReal true (5) (-1)); (XReal true (3) (0)); (XReal true (1) (1)); (XReal false (0) (0))] [(XReal false (15625) (6)); (XReal false (34375) (5)); (XReal false (9375) (7)); (XReal false (40625) (5)); (XReal false (21875) (6))]); (mk_gen (s2l "AB 12") (s2l "inj 2") (XInt (0)) XNone XNone (XInt (1)) (s2l "HEAT") (s2l "") (XReal false (375) (2)) XNone XNone XNone [] [] [])]
-  None
+  (Some (mk_short (Some (XInt (5))) (Some [(s2l "AB105"); (s2l "wel 1")]) (Some [((s2l "AB 12"), (s2l "wel 1"))]) (Some [((s2l "AB105"), (s2l "wel 1"))])))
   [(s2l "AB 12"); (s2l "wel 1")]
   [((s2l "AB105"), (s2l "AB 12"))]
   [(s2l "AB105")]
   [((s2l "AB 12"), (mk_inc (XReal false (1) (-2)) [(XReal false (3125) (5)); (XReal false (15) (0))] None)); ((s2l "AB105"), (mk_inc XNone [(XReal false (3125) (6)); (XReal false (125) (1)); (XReal false (3602879701896397) (-55))] (Some ((XInt (2)), (XInt (1))))))]
   [((s2l "rock2"), [(XReal false (3125) (5)); (XReal false (5) (2)); (XReal false (1) (-2))]); ((s2l "rock1"), [(XReal false (3125) (6))])]
-  [(s2l "ROCKS"); (s2l "MULTI"); (s2l "START"); (s2l "DIFFU"); (s2l "ELEME"); (s2l "CONNE"); (s2l "PARAM"); (s2l "RPCAP"); (s2l "SOLVR"); (s2l "MOMOP"); (s2l "TIMES"); (s2l "SELEC"); (s2l "GENER"); (s2l "COFT"); (s2l "FOFT"); (s2l "GOFT"); (s2l "INDOM"); (s2l "INCON")]
+  [(s2l "ROCKS"); (s2l "MULTI"); (s2l "START"); (s2l "DIFFU"); (s2l "ELEME"); (s2l "CONNE"); (s2l "MESHM"); (s2l "RPCAP"); (s2l "SOLVR"); (s2l "MOMOP"); (s2l "TIMES"); (s2l "SELEC"); (s2l "GENER"); (s2l "PARAM"); (s2l "SHORT"); (s2l "COFT"); (s2l "FOFT"); (s2l "GOFT"); (s2l "INDOM"); (s2l "INCON")]
   (s2l "ENDCY")
   []
   true).
-Definition example_tough2_order : list string := ["ROCKS"; "MULTI"; "START"; "DIFFU"; "ELEME"; "CONNE"; "PARAM"; "RPCAP"; "SOLVR"; "MOMOP"; "TIMES"; "SELEC"; "GENER"; "COFT"; "FOFT"; "GOFT"; "INDOM"; "INCON"].
+Definition example_tough2_order : list string := ["ROCKS"; "MULTI"; "START"; "DIFFU"; "ELEME"; "CONNE"; "MESHM"; "RPCAP"; "SOLVR"; "MOMOP"; "TIMES"; "SELEC"; "GENER"; "PARAM"; "SHORT"; "COFT"; "FOFT"; "GOFT"; "INDOM"; "INCON"].
 
 Definition hyps_ok (d : t2d) (ks : list string) : bool :=
   match write_lines d with
@@ -118,8 +120,32 @@ Definition hyps_mesh_ok (d : t2d) (ks : list string) : bool :=
        forallb (wf_block T0 (rocks d2)) (blocks d) && forallb (wf_conn T0 (canon_blocks T0 (blocks d))) (conns d))
   | Raise _ => false
   end.
-Definition no_mesh (ks : list string) : list string := filter (fun k => negb ((k =? "ELEME") || (k =? "CONNE"))) ks.
-Example example_autough2_mesh_ok : hyps_mesh_ok example_autough2 (no_mesh example_autough2_order) = true.
+(* the short-output items are looked up in the grid while reading, so with a separate mesh file there is no SHORT *)
+Definition no_mesh (ks : list string) : list string := filter (fun k => negb ((k =? "ELEME") || (k =? "CONNE") || (k =? "SHORT"))) ks.
+Definition drop_short (d : t2d) : t2d := set_sections (set_short d None) (filter (fun k => negb (str_eqb k (s2l "SHORT"))) (sections d)).
+Example example_autough2_mesh_ok : hyps_mesh_ok (drop_short example_autough2) (no_mesh example_autough2_order) = true.
 Proof. vm_compute. reflexivity. Qed.
-Example example_tough2_mesh_ok : hyps_mesh_ok example_tough2 (no_mesh example_tough2_order) = true.
+Example example_tough2_mesh_ok : hyps_mesh_ok (drop_short example_tough2) (no_mesh example_tough2_order) = true.
+Proof. vm_compute. reflexivity. Qed.
+
+(** the AUTOUGH2 object written with an extra-precision companion holding all five sections,
+    not echoed and echoed *)
+From P Require Import Xp.
+Definition all_xp : list string := ["ROCKS"; "ELEME"; "CONNE"; "RPCAP"; "GENER"].
+Definition hyps_xp_ok (d : t2d) (xs : list string) (b : bool) (ks : list string) : bool :=
+  match write_files (mk_wcfg 0 (Some (map s2l xs)) (Some b)) d with
+  | Ok _ =>
+      vlist_eqb (map XStr (update_sections d)) (map XStr (sections d)) &&
+      match xprec d with [] => true | _ => false end && xecho d && autough2 d && match xs with [] => false | _ => true end &&
+      vlist_eqb (map XStr (msecs d (map s2l xs) b)) (map XStr (map s2l ("SIMUL" :: ks))) &&
+      is_end (end_keyword d) && title_ok d && secwf "SIMUL" d (start_state d) && xchain_ok d xs (simul_state d) &&
+      chain_okX d ks (push "SIMUL" (xp_state d xs (simul_state d)))
+  | Raise _ => false
+  end.
+Definition no_xp (ks : list string) : list string :=
+  filter (fun k => negb (existsb (String.eqb k) ("SIMUL" :: all_xp))) ks.
+Definition no_simul (ks : list string) : list string := filter (fun k => negb (k =? "SIMUL")) ks.
+Example example_xp_ok : hyps_xp_ok example_autough2 all_xp false (no_xp example_autough2_order) = true.
+Proof. vm_compute. reflexivity. Qed.
+Example example_xp_echo_ok : hyps_xp_ok example_autough2 all_xp true (no_simul example_autough2_order) = true.
 Proof. vm_compute. reflexivity. Qed.
